@@ -36,7 +36,7 @@ func c10Names() []string {
 
 func c10(r *mon.Run) {
 	r.Rule = "exhaustive: (26 built-in names + foo, Abs, length2, amp) x argument counts 0..3 (0..4 in thorough; quick covers arity 4 for the variadic functions and 3 fixed-arity representatives) x every argument tuple over a 14-value universe (null, boolean, number, string, array[number], array[string], mixed / empty / nested array, object, empty object, array of objects, &a, &@), arguments written as literals and read from the document; " +
-		"by-expression functions x arrays of length 0..3 whose keys are number / string / null / array / object / boolean / missing in every combination; seeded random nestings of ill-typed calls; the ill-typed half of the sized-array cases (by-expression keys inconsistent at one position of 1...1000 elements); 23 Go values that are not the JSON representation (int, uint8, float32, json.Number, named types, pointers, structs, typed maps, []interface{} holding such values, complex, func, chan, nil *struct, [2]int) in every parameter position of every function, direct and per element of a projection: an error where the position declares a type, never a panic. Oracle: ref.CheckArgs (signature table) + model. Non-trivial = distinct (function, arity, type tuple) that the table rejects."
+		"by-expression functions x arrays of length 0..3 whose keys are number / string / null / array / object / boolean / missing in every combination; seeded random nestings of ill-typed calls; the ill-typed half of the sized-array cases (by-expression keys inconsistent at one position of 1...1000 elements); 23 Go values that are not the JSON representation (int, uint8, float32, json.Number, named types, pointers, structs, typed maps, []interface{} holding such values, complex, func, chan, nil *struct, [2]int) in every parameter position of every function, direct and per element of a projection: an error where the position declares a type, never a panic; expression references with 19 kinds of body (paths, calls, multi-selects, operators, literals, projections, a failing call) in every parameter position. Oracle: ref.CheckArgs (signature table) + model. Non-trivial = distinct (function, arity, type tuple) that the table rejects."
 	r.Exhaustive = true
 	r.Floor = 2000
 	r.Assumptions = []string{"the signature table ref.Signatures is the JMESPath function specification; an expression reference passed where `any` is declared is left open (only 'no panic' is required there)"}
@@ -325,5 +325,40 @@ func c10(r *mon.Run) {
 				t.Count("non-JSON argument in an 'any' position: no panic")
 			}
 		}}
-	r.Exec(exh, by, many, rnd, sizedWorkload(r, "sized-arrays-ill-typed", true), nj)
+	// expression references of every shape in every parameter position (the matrix above uses &a and &@): where a
+	// value is required the call is an error whatever the referenced expression looks like — and the error has to
+	// be built from it
+	bodies := []*gen.Expr{gen.Field("n"), gen.Current(), gen.Chain(gen.Field("o"), gen.StField("k")), gen.Chain(gen.Field("a"), gen.StIndex(0)), gen.Func("length", gen.Current()), gen.MultiList(gen.Field("n"), gen.Field("s")),
+		gen.MultiHash(keyA("x"), []*gen.Expr{gen.Field("n")}), gen.Or(gen.Field("n"), gen.Field("s")), gen.Not(gen.Field("n")), gen.LitJSON("1"), gen.Raw("r"), gen.Chain(gen.Field("a"), gen.StListStar(), gen.StField("k")),
+		gen.Cmp("<", gen.Field("n"), gen.LitJSON("2")), gen.Pipe(gen.Field("a"), gen.Chain(nil, gen.StIndex(0))), gen.Func("sort_by", gen.Field("a"), gen.ExpRef(gen.Current())), gen.Chain(gen.Field("a"), gen.StFilter(gen.Current())),
+		gen.Chain(gen.Field("a"), gen.StSliceS("1", "", "")), gen.Func("abs", gen.Raw("x")), gen.Chain(gen.Field("o"), gen.StStar())}
+	erw := mon.Workload{Name: "expression-references-as-arguments", N: len(njs) * len(bodies) * 2,
+		Do: func(i int, t *mon.Tally) {
+			c := njs[i/2/len(bodies)]
+			body := bodies[i/2%len(bodies)]
+			sg := ref.Signatures[c.fn]
+			args := make([]*gen.Expr, c.n)
+			for p := range args {
+				d := sg.Params[len(sg.Params)-1]
+				if p < len(sg.Params) {
+					d = sg.Params[p]
+				}
+				args[p] = valid(d)
+			}
+			args[c.pos] = gen.ExpRef(body)
+			var tree *gen.Expr = gen.Func(c.fn, args...)
+			row := map[string]interface{}{"n": float64(1), "s": "a", "a": []interface{}{float64(1), float64(2)}, "as": []interface{}{"a"}, "o": map[string]interface{}{"k": float64(1)}}
+			var doc interface{} = row
+			if i%2 == 1 {
+				tree = gen.Chain(gen.Field("rows"), gen.StListStar(), gen.StFunc(c.fn, args...))
+				doc = map[string]interface{}{"rows": []interface{}{row, row}}
+			}
+			cx := &caseCtx{r, t, "expression-references-as-arguments", i}
+			res, _, _ := cx.runBoth(tree, gen.SpellTight(tree), doc)
+			if isErr(res) {
+				t.Count("expression reference where a value is required: error")
+				t.Nontrivial(fmt.Sprint("er:", i))
+			}
+		}}
+	r.Exec(exh, by, many, rnd, sizedWorkload(r, "sized-arrays-ill-typed", true), nj, erw)
 }
